@@ -13,6 +13,8 @@ for sid in sorted(res):
         lines = [l for l in r.get('lines', []) if l.startswith('VIOLATION')]
         if r['exit'] == 1 and lines:
             kind = 'tie' if all('no-failing-input-found' in l for l in lines) else 'oracle'
+        elif r['exit'] == 1:
+            kind = 'oracle'      # exit 1 is only given for a violation that is not a known finding (lines beyond the stored ones)
         elif r['exit'] == 0:
             kind = 'missed'
         else:
